@@ -75,7 +75,7 @@ class Result:
 
 
 def write_replay(pid, name, obj):
-    d = os.path.join(qv.VERIF, "replays")
+    d = os.environ.get("QV_REPLAY_DIR", os.path.join(qv.VERIF, "replays"))
     os.makedirs(d, exist_ok=True)
     p = os.path.join(d, f"{pid}-{name}.json")
     qv.write_json(p, obj)
@@ -240,7 +240,7 @@ def run_property(spec, tier=None, seed=None):
     res = Result(pid)
     workdir = os.path.join(qv.CACHE, "run", f"{pid}-{os.getpid()}")
     os.makedirs(workdir, exist_ok=True)
-    evidence_path = os.path.join(qv.VERIF, "evidence", pid + ".json")
+    evidence_path = os.path.join(os.environ.get("QV_EVIDENCE_DIR", os.path.join(qv.VERIF, "evidence")), pid + ".json")
 
     # 1. harness
     ok, binp, blog = qv.build_harness()
